@@ -61,6 +61,10 @@ let res_string (r : coq_N list Base.res) : string =
   | Base.Panic -> "p"
   | Base.OutOfFuel -> "FUEL"
 
+let bytes_of_res (s : string) : coq_N list option =
+  if S.length s >= 2 && S.sub s 0 2 = "o:" then
+    (let h = S.sub s 2 (S.length s - 2) in Some (if h = "-" then [] else bytes_of_hex h))
+  else None
 
 (* ---- C08FragModel: the File built by DecodeFile ---- *)
 let key_string (m : mdat) : string =
@@ -241,6 +245,47 @@ let () =
         if a <> ms || b <> ls then Printf.printf "MISMATCH %s file-encode-sw model_mem=%s model_lazy=%s\n" id a b
         else if hyp && not (concl ()) then Printf.printf "MISMATCH %s file-encode-sw C08_file_encode_sw-conclusion-false-on-implementation\n" id
         else Printf.printf "OK %s%s\n" id (if hyp then " H" else "")
+      | ["Z"; id; sizes; lz; enc] ->
+        (* Fragment.AddSampleToTrack for each size, then Encode of the fragment's (payload-less) mdat *)
+        let zs = if sizes = "-" then [] else L.map (fun x -> n_of_int (int_of_string x)) (split_on ',' sizes) in
+        let total = C08SwModel.lazy_size_after zs in
+        let a = hex_of_n total and b = res_string (mdat_encode (C08EncModel.mdat_for_writing (n_of_int 0) total)) in
+        if a = lz && b = enc then Printf.printf "OK %s\n" id
+        else Printf.printf "MISMATCH %s prepared-mdat model_lazyDataSize=%s model_encode=%s\n" id a b
+      | ["L"; id; valid; a; b; wl; orc; chunks; lz; enc; lr] ->
+        (* the lazy writer end to end: prepared header, then CopySampleData from the lazily decoded input *)
+        (match !mm, !ml with
+         | Some m1, Some m2 ->
+           let a = n_of_int (int_of_string a) and b = n_of_int (int_of_string b) in
+           let ws = L.init (int_of_string wl) (fun _ -> n_of_int 170) in
+           let cs = parse_chunks chunks in
+           let cnt = nat_of_int (int_of_n b + 1 - int_of_n a) in
+           let total = C08SwModel.lazy_size_after (C08Spec.sizes_from !tb a cnt) in
+           let hd = mdat_encode (C08EncModel.mdat_for_writing (n_of_int 0) total) in
+           let x = hex_of_n total and y = res_string hd in
+           let pr = copy_sample_data true !file !zeof m2 (Some { rpos = n_of_int 0; rorc = orc_of orc }) !tb cs a b ws in
+           let z = res_string pr in
+           let pl = if int_of_n m2.lazyDataSize > 0 then m2.lazyDataSize else n_of_int (L.length m1.coq_Data) in
+           let hyp = C08Spec.box_in_file !file m1.coq_StartPos m1.coq_LargeSize pl
+                     && C08Spec.chunks_cover a b cs
+                     && C08Spec.chunks_in_payload !tb m1.coq_StartPos m1.coq_LargeSize pl cs in
+           (* conclusion of C08_lazy_writer_end_to_end evaluated on the implementation's answers *)
+           let concl () =
+             match bytes_of_res enc, bytes_of_res lr with
+             | Some h, Some p ->
+               let large = int_of_n total > 4294967296 - 1 - 8 in
+               let box = h @ p in
+               n_of_int (L.length p) = total && lz = x
+               && p = C08Spec.expected_samples !file !tb cs a b
+               && C08Spec.header_at box (n_of_int 0) large total
+               && C08Spec.box_in_file box (n_of_int 0) large total
+               && sub box (C08Spec.hdr_len large) total = p
+             | _ -> false in
+           if x <> lz || y <> enc || z <> lr then Printf.printf "MISMATCH %s lazy-writer model_lazyDataSize=%s model_encode=%s model_copy=%s\n" id x y z
+           else if valid = "1" && not hyp then Printf.printf "MISMATCH %s lazy-writer hypotheses-of-C08_lazy_writer_end_to_end-not-met-by-implementation-chunks\n" id
+           else if hyp && not (concl ()) then Printf.printf "MISMATCH %s lazy-writer C08_lazy_writer_end_to_end-conclusion-false-on-implementation\n" id
+           else Printf.printf "OK %s%s\n" id (if hyp then " H" else "")
+         | _ -> Printf.printf "MISMATCH %s lazy-writer no-model-context\n" id)
       | ["P"; id; sizes; uni; offs; a; b; chunks; segs] ->
         (* positions only (sparse file beyond 4 GiB): the (offset,size) the chunk loop computes per chunk *)
         let t = { sample_sizes = L.map n_of_int (ints_of_csv sizes); uniform_size = n_of_int (int_of_string uni);
